@@ -29,3 +29,16 @@ macro_rules! steps_to_harness { ($name:ident, $n:expr) => {
 } }
 steps_to_harness!(c15_k_steps_to_10, 10);
 steps_to_harness!(c15_k_steps_to_12, 12);
+
+// C11: the assumed Verus specification of isize::div_euclid (verus/c11_month_next.rs) for the divisor used by
+// SixtyCycleMonth::next: Euclidean division by 12 is floor division, remainder in 0..12.
+#[kani::proof]
+#[kani::stub(alloc::fmt::format, stub_format)]
+fn c11_k_div_euclid_12() {
+  let a: isize = kani::any();
+  kani::assume(a > -(1isize << 46) && a < (1isize << 46));
+  let q = a.div_euclid(12);
+  let r = a - 12 * q;
+  assert!(r >= 0 && r < 12 && q as i64 == spec::ediv(a as i64, 12), "div_euclid(12) == floor(a / 12)");
+  kani::cover!(a == -1 && q == -1, "div_euclid reachable (negative numerator)");
+}
